@@ -8,7 +8,7 @@
 //   chk: 1 = the script ends with INTERESTED + HAVE(1); after success the connection must show them
 //   script: "X" (close at once) or phases separated by '/', phase = tok,tok,...@seg
 //     seg: W whole | B byte-wise | a.b.c cut offsets
-//     tok: K key | KZ zero key | O<n> opaque clear | R req1 | RX wrong req1 | S<t> obfuscated skey
+//     tok: K key | KL key giving a shared secret with a leading zero byte (outgoing only) | KZ zero key | O<n> opaque clear | R req1 | RX wrong req1 | S<t> obfuscated skey
 //          e:<hex> c:<hex> m:<hex>  literal, RC4 / clear / per negotiated mode
 //          eH<t><i><x> cH.. mH..    BT handshake: torrent kind t, id kind i (1 = library's own id), ext bit x
 //          eZ<n> mZ<n>              n zero bytes
@@ -17,7 +17,7 @@
 //          X                        close after this phase
 //   torrent kinds: 1 active, 2 added but not started, 3 unknown, 4 second active torrent
 // Output (compared with the model):
-//   a<k>:<state>.<pos>.<end>,...  per segment while the handshake lives; then ok | f<type>.<err> | drop | gone
+//   a<k>[p|m]:<state>.<pos>.<end>,...  (outgoing: p/m = the library opened with a plain / MSE handshake) per segment while the handshake lives; then ok | f<type>.<err> | drop | gone
 //   w=<K V S<n> P<n> H<0|1>> m=<ids up to the bitfield> att=<connections seen> lib=<ok|bad|->
 #include "config.h"
 
@@ -180,6 +180,12 @@ struct Conn {
   bool expand(const std::string& t, std::string& out) {
     if (t == "K") { mse = true; out += mseend.pubkey(); return true; }
     if (t == "KZ") { mse = true; out += std::string(96, '\0'); return true; }
+    if (t == "KL") {   // key chosen after seeing the library's: shared secret with a leading zero byte
+      mse = true;
+      if (w.rx.size() >= 96) mseend.rekey_leading_zero(w.rx.substr(0, 96), g_case_no);
+      out += mseend.pubkey();
+      return true;
+    }
     if (t == "R") { learn_key(); out += mseend.req1(); return true; }
     if (t == "RX") { out += junk(20); return true; }
     if (t[0] == 'O') { out += junk(std::stoul(t.substr(1))); return true; }
@@ -446,7 +452,7 @@ static std::string run_case(Session& S, const std::string& line) {
       }
       if (result == "ok" || result == "open") pump(S, {&w});
       if (result == "ok") { summ = c.summary(T1->info_hash); libs = lib_check(S, c, T1, port, result, chk); }
-      outp += (outp.empty() ? "" : " ") + std::string("a") + std::to_string(attempts) + ":" + tr;
+      outp += (outp.empty() ? "" : " ") + std::string("a") + std::to_string(attempts) + (plainhs ? "p:" : "m:") + tr;
       if (result == "ok" || result == "open") break;
       if (w.fd != -1) { ::close(w.fd); w.fd = -1; }
       w.rx.clear();
